@@ -33,3 +33,4 @@ def run(ck):
     status.r_wide_only_properties_reach_the_flags(ck, P)
     sampling.r18_rotation_tiles(ck, P, 'C02-R25')        # the tiled C rotation fast paths against the general path
     filt.r13_phase_follows_the_pixel(ck, P, 'C02-R26')           # the C fast fetcher against the general one
+    factors.r27_opacity_test_on_unpacked_pixel(ck, P)
